@@ -291,7 +291,7 @@ var legNo = map[string]int{"text": 1, "json": 2, "cross": 3, "own-text": 4, "own
 func randomLeg(t *testing.T, name string, l legs, quick, thorough int) {
 	legSeed(legNo[name])
 	ev.SetChecks(ev.Scale(quick, thorough))
-	rapid.Check(t, func(rt *rapid.T) {
+	ev.Check(t, func(rt *rapid.T) {
 		c := genCase(rt)
 		if fs := run(c, "random:"+name, l); len(fs) > 0 {
 			rt.Fatalf("C17/%s: the round trip changes the schema", name)
@@ -440,6 +440,9 @@ func TestReplay(t *testing.T) {
 	}
 	if err != nil {
 		t.Fatal(err)
+	}
+	if ev.ReplayFuzz(t, rf, fuzzProps, nil) {
+		return
 	}
 	var c Case
 	if err := json.Unmarshal(rf.Case, &c); err != nil || c.Schema == nil {
